@@ -30,7 +30,7 @@ func genGroup(c *cf.Case, r *cf.Rng, prop string) {
 	cfg.RebalanceMs = r.Pick(50, 200, 1000)
 	cfg.RebRetryMax = r.Pick(0, 1, 4)
 	cfg.RebBackoffMs = r.Pick(1, 10, 100)
-	cfg.MetaRefreshMs = r.Pick(20, 100, 600000)
+	cfg.MetaRefreshMs = r.Pick(20, 100, 600000, 0) // 0 = background refresh disabled (documented value)
 	cfg.AutoCommitMs = r.Pick(5, 50, 1000)
 	cfg.OffsetsRetryMax = r.Pick(0, 1, 3)
 	cfg.InitialOldest = r.Intn(3) != 0
